@@ -105,33 +105,34 @@ type Lemma struct {
 }
 
 type Contract struct {
-	Kind        string // "func" or "iface"
-	Name        string // e.g. "(*FileWriter).Write", "floodFill", "recordio.WriterI.Write"
-	Pkg         string // package path of the file it was found in
-	Props       []string
-	Mode        string
-	Bytes       string
-	Requires    []Clause
-	Ensures     []Clause
-	Exits       []Clause // asserted at every return like ensures, may mention locals, never exported to callers
-	Modifies    []string
-	HasMod      bool
-	Panics      string
-	Loops       map[int]*Loop
-	Trusted     bool
-	Line        int
-	File        string
-	CallAsserts []CallAssert
-	Implements  []string // iface contract keys whose clauses this function must satisfy
-	Replay      string   // replay driver name
-	Safety      string   // "on" / "off" / ""
-	Pure        bool     // declared to have no heap effect at all (stronger than modifies nothing: also for loops' havoc)
-	Assumed     bool     // contract of a repository function that is used by callers but not (yet) verified
-	Fresh       []string // results that are freshly allocated objects when non-nil
-	WrapOK      bool     // integer arithmetic in this function wraps by design (hash-like code): no overflow obligations
-	FuncValue   bool     // contract of a function value (fnvalue): parameters only, no receiver
-	Axioms      []Clause // contracts-ext only: assumed facts
-	Conformance string   // name of the executable conformance check of a trusted contract
+	Kind         string // "func" or "iface"
+	Name         string // e.g. "(*FileWriter).Write", "floodFill", "recordio.WriterI.Write"
+	Pkg          string // package path of the file it was found in
+	Props        []string
+	Mode         string
+	Bytes        string
+	Requires     []Clause
+	Ensures      []Clause
+	Exits        []Clause // asserted at every return like ensures, may mention locals, never exported to callers
+	Modifies     []string
+	HasMod       bool
+	Panics       string
+	Loops        map[int]*Loop
+	ClosureLoops map[string]*Loop
+	Trusted      bool
+	Line         int
+	File         string
+	CallAsserts  []CallAssert
+	Implements   []string // iface contract keys whose clauses this function must satisfy
+	Replay       string   // replay driver name
+	Safety       string   // "on" / "off" / ""
+	Pure         bool     // declared to have no heap effect at all (stronger than modifies nothing: also for loops' havoc)
+	Assumed      bool     // contract of a repository function that is used by callers but not (yet) verified
+	Fresh        []string // results that are freshly allocated objects when non-nil
+	WrapOK       bool     // integer arithmetic in this function wraps by design (hash-like code): no overflow obligations
+	FuncValue    bool     // contract of a function value (fnvalue): parameters only, no receiver
+	Axioms       []Clause // contracts-ext only: assumed facts
+	Conformance  string   // name of the executable conformance check of a trusted contract
 }
 
 type Spec struct {
@@ -327,7 +328,20 @@ func ParseComments(pkg, file string, lines []string, lineNos []int) *File {
 				cur.HasMod = true
 				pendKind, pendSrc, pendLine = "modifies", []string{rest}, ln
 			case "loop":
-				n, err := strconv.Atoi(strings.TrimSuffix(strings.Fields(rest)[0], ":"))
+				arg := strings.TrimSuffix(strings.Fields(rest)[0], ":")
+				if i := strings.Index(arg, ":"); i > 0 { // loop inside an inlined closure: <closure name>:<ordinal>
+					if _, err := strconv.Atoi(arg[i+1:]); err != nil {
+						f.Errors = append(f.Errors, fmt.Errorf("%s:%d: bad loop ordinal %q", file, ln, rest))
+						continue
+					}
+					curLoop = &Loop{}
+					if cur.ClosureLoops == nil {
+						cur.ClosureLoops = map[string]*Loop{}
+					}
+					cur.ClosureLoops[arg] = curLoop
+					continue
+				}
+				n, err := strconv.Atoi(arg)
 				if err != nil {
 					f.Errors = append(f.Errors, fmt.Errorf("%s:%d: bad loop ordinal %q", file, ln, rest))
 					continue
